@@ -293,6 +293,9 @@ func (route *baseRoute) DelDestination(index int) error {
 }
 
 func (route *ConsistentHashing) DelDestination(index int) error {
+	if conf := route.config.Load().(Config); len(conf.Dests()) < 2 {
+		return fmt.Errorf("cannot remove the last destination of a consistentHashing route")
+	}
 	return route.delDestination(index, consistentHashingConfigExtender)
 }
 
